@@ -761,6 +761,9 @@ struct Leg {
     /// very connection in between (the connection subscribes for the occasion and unsubscribes afterwards)
     split_next: Option<usize>,
     split_done: u64,
+    /// socket only: what bursts of events pushed to this connection looked like on the wire
+    /// ({"k": published, "got": [publication counters in arrival order], "sid": all tagged with the subscription's id})
+    bursts: Vec<Value>,
 }
 
 /// What one entry point did with one line.
@@ -808,7 +811,7 @@ impl Leg {
         } else {
             None
         };
-        Leg { entry, cfg, stats, cw, hub, tx, _rx: rx, owned: Vec::new(), sock, bytes: None, split_next: None, split_done: 0 }
+        Leg { entry, cfg, stats, cw, hub, tx, _rx: rx, owned: Vec::new(), sock, bytes: None, split_next: None, split_done: 0, bursts: Vec::new() }
     }
 
     /// Send one line through this entry point, then a get_status probe.
@@ -852,6 +855,8 @@ impl Leg {
                 let hub = self.hub.clone();
                 let nth = self.split_done;
                 let mut did_split = false;
+                let mut burst: Option<Value> = None;
+                let mut backlog = false;
                 let got = rt.block_on(async {
                     let io = async {
                         // read lines until the answer with this id; everything else is handed back
@@ -874,6 +879,44 @@ impl Leg {
                                 s.wr.write_all(b"{\"jsonrpc\":\"2.0\",\"id\":\"vh-sub\",\"method\":\"subscribe\",\"params\":{\"topic\":\"stats\"}}\n").await.ok()?;
                                 let v = until_id(&mut s.rd, "vh-sub").await?;
                                 sub_id = v["result"].as_object().and_then(|o| o.values().find_map(|x| x.as_str().map(str::to_string)));
+                                if nth % 3 == 1 {
+                                    // a burst: several events are queued for this connection before its task runs again
+                                    // (nothing here waits, so the task is not polled in between); they must come out in
+                                    // publication order
+                                    let k = [2u64, 5, 40][(nth / 3 % 3) as usize];
+                                    for i in 0..k {
+                                        hub.publish("stats", json!({"vh": nth, "k": i})).await;
+                                    }
+                                    let mut got: Vec<u64> = Vec::new();
+                                    let mut sid_ok = true;
+                                    while (got.len() as u64) < k {
+                                        let mut l = String::new();
+                                        match tokio::time::timeout(std::time::Duration::from_secs(2), s.rd.read_line(&mut l)).await {
+                                            Ok(Ok(n)) if n > 0 => {}
+                                            _ => break,
+                                        }
+                                        if let Ok(v) = serde_json::from_str::<Value>(l.trim()) {
+                                            // (the connection may hold further subscriptions to the topic from the
+                                            // request sequence itself: only the lines of this one are looked at)
+                                            if v["params"]["data"]["vh"] == json!(nth) && v["params"]["subscription_id"].as_str() == sub_id.as_deref() {
+                                                got.push(v["params"]["data"]["k"].as_u64().unwrap_or(u64::MAX));
+                                                sid_ok &= v["method"] == json!("stats.update");
+                                            }
+                                        }
+                                    }
+                                    burst = Some(json!({"k": k, "got": got, "sid": sid_ok}));
+                                    s.wr.write_all(&payload).await.ok()?;
+                                    did_split = true;
+                                } else if nth % 3 == 2 {
+                                    // a backlog: the request is already in the socket when far more events than the
+                                    // connection's queue holds are published at once; the answer must still come
+                                    s.wr.write_all(&payload).await.ok()?;
+                                    for i in 0..300u64 {
+                                        hub.publish("stats", json!({"vh": nth, "k": i})).await;
+                                    }
+                                    backlog = true;
+                                    did_split = true;
+                                } else {
                                 // the first part of the line ...
                                 s.wr.write_all(&payload[..pos]).await.ok()?;
                                 tokio::time::sleep(std::time::Duration::from_millis(3)).await;
@@ -891,6 +934,7 @@ impl Leg {
                                 // ... and the rest of it
                                 s.wr.write_all(&payload[pos..]).await.ok()?;
                                 did_split = true;
+                                }
                             }
                             None => s.wr.write_all(&payload).await.ok()?,
                         }
@@ -903,9 +947,10 @@ impl Leg {
                                 return None; // the connection's task is gone
                             }
                             let l = l.trim_end_matches('\n').to_string();
-                            // a pushed event (the connection may hold further subscriptions to the topic from the
-                            // request sequence itself) is not an answer to anything
-                            if did_split && serde_json::from_str::<Value>(&l).ok().is_some_and(|v| v.get("id").is_none() && v["params"]["data"].get("vh").is_some()) {
+                            // an event this harness published (the connection may hold further subscriptions to the topic
+                            // from the request sequence itself, and what a backlog left in its queue arrives much later)
+                            // is not an answer to anything
+                            if serde_json::from_str::<Value>(&l).ok().is_some_and(|v| v.get("id").is_none() && v["params"]["data"].get("vh").is_some()) {
                                 continue;
                             }
                             let is_marker = serde_json::from_str::<Value>(&l)
@@ -926,6 +971,12 @@ impl Leg {
                 });
                 if did_split {
                     self.split_done += 1;
+                }
+                if let Some(b) = burst {
+                    self.bursts.push(b);
+                }
+                if backlog {
+                    self.bursts.push(json!({"backlog": 300, "answered": got.is_some()}));
                 }
                 match got {
                     Some((before, p)) => {
@@ -1356,6 +1407,13 @@ impl ControlEngine {
             "agree": agwhy.is_empty(), "wf": wfwhy.is_empty(), "sockdead": sockdead,
             "render": rd.tags,
         });
+        let bursts: Vec<Value> = self.legs.iter_mut().flat_map(|l| l.bursts.drain(..).collect::<Vec<_>>()).collect();
+        for b in &bursts {
+            if b.get("backlog").is_some() { self.bump("socket_requests_behind_a_backlog"); } else { self.bump("socket_push_bursts"); }
+        }
+        if !bursts.is_empty() {
+            o["bursts"] = json!(bursts);
+        }
         // the concrete line: as text for replay reports, as hex in recorded traces (TLC reads those)
         if self.recording {
             // (kept short: the trace is read by TLC and by line-oriented tools)
